@@ -28,13 +28,19 @@ def nalType (nal : Bytes) : Nat := match nal with | [] => 0 | b :: _ => b.toNat 
 /-- the access unit delimiter NAL: type 9, primary_pic_type 7, stop bit -/
 def audNal : Bytes := [0x09, 0xf0]
 
-/-- NAL units the PES of a video frame must contain, in order: an access unit delimiter in
-    front of slices and SEI, the stream's SPS and PPS in front of an IDR slice, the source NAL -/
-def expectedNals (p : Params) (nal : Bytes) : List Bytes :=
+/-- The NAL units the PES of a video frame may consist of, in order (each alternative is a
+    complete list).  From the statement and H.264 7.4.1.2.3, not from the code: a coded slice
+    (type 1 non-IDR, type 5 IDR — the access data proper) MUST be preceded by an access unit
+    delimiter, an IDR slice in addition by the stream's SPS and PPS (those the stream has) between
+    the delimiter and the slice; any other NAL unit handed over as a frame of its own (SEI,
+    parameter sets, delimiters, data partitions, …) is carried as it is, with or without a
+    delimiter in front of it. -/
+def expectedNalsAlts (p : Params) (nal : Bytes) : List (List Bytes) :=
   let t := nalType nal
-  (if t = 1 ∨ t = 5 ∨ t = 6 then [audNal] else [])
-  ++ (if t = 5 then (if p.sps.isEmpty then [] else [p.sps]) ++ (if p.pps.isEmpty then [] else [p.pps]) else [])
-  ++ [nal]
+  if t = 5 then
+    [[audNal] ++ (if p.sps.isEmpty then [] else [p.sps]) ++ (if p.pps.isEmpty then [] else [p.pps]) ++ [nal]]
+  else if t = 1 then [[audNal, nal]]
+  else [[nal], [audNal, nal]]
 
 def stripPrefix : Bytes → Bytes → Option Bytes
   | [], bs => some bs
@@ -60,7 +66,7 @@ def checkVideo (p : Params) (nal : Bytes) (dts pts : Nat) (pes : Pes) : Except S
   if pes.streamId / 16 ≠ 0xe then throw "video-stream-id"
   if pes.pts ≠ pts % 2^33 then throw "video-pts"
   if pes.dts.getD pes.pts ≠ dts % 2^33 then throw "video-dts"
-  if ¬ matchAnnexB (expectedNals p nal) pes.payload then throw s!"annexb-type-{nalType nal}"
+  if ¬ (expectedNalsAlts p nal).any (matchAnnexB · pes.payload) then throw s!"annexb-type-{nalType nal}"
   if isKey nal then
     if ¬ pes.rai then throw "key-no-random-access"
     if pes.pcr ≠ some (dts % 2^33) then throw "key-pcr"
